@@ -10,13 +10,19 @@ VARIABLES ci, line, words, st
 A0(s, l, kind) == [s |-> s, l |-> l, pos |-> FALSE, kind |-> kind, vm |-> IF kind = "flag" THEN "none" ELSE IF kind = "level" THEN "opt" ELSE "req",
                    mand |-> FALSE, card |-> [t |-> "dflt", a |-> 0, b |-> 0], checks |-> <<>>, formats |-> <<>>,
                    sep |-> 44, clear |-> FALSE, sort |-> FALSE, uniq |-> "no", multi |-> FALSE, req |-> <<>>, exc |-> <<>>,
-                   init |-> CASE kind = "flag" -> FALSE [] kind \in {"int", "dbl", "level"} -> 0 [] kind \in {"arr3", "sarr3"} -> <<0, 0, 0>>
+                   init |-> CASE kind = "flag" -> FALSE [] kind \in {"int", "dbl", "level", "valint"} -> 0 [] kind \in {"arr3", "sarr3"} -> <<0, 0, 0>>
                              [] kind = "tup" -> <<0, <<>>, 0>> [] kind = "bits8" -> [k \in 1..8 |-> FALSE] [] OTHER -> <<>>,
-                   depr |-> FALSE, unset |-> FALSE, cspell |-> 0, grp |-> 0, hidden |-> FALSE, dashes |-> FALSE, mix |-> FALSE]
+                   depr |-> FALSE, unset |-> FALSE, cspell |-> 0, grp |-> 0, hidden |-> FALSE, dashes |-> FALSE, mix |-> FALSE,
+                   \* isize: initial size of a vector<bool>/DynamicBitset (driver only); value arguments: setval, dst (owner of the
+                   \* variable), chkorig; pair arguments: second variable [on, val, init]
+                   isize |-> 0, setval |-> 0, dst |-> 0, chkorig |-> TRUE, pair |-> [on |-> FALSE, val |-> 0, init |-> 0]]
+\* value argument storing v in the variable owned by argument d
+AV(s, l, v, d) == [A0(s, l, "valint") EXCEPT !.vm = "none", !.setval = v, !.dst = d]
 Ck(k, a, b) == [k |-> k, a |-> a, b |-> b, vals |-> <<>>]
 C0(args, hcons, abbr) == [abbr |-> abbr, endvalues |-> FALSE, args |-> args, hcons |-> hcons]
 H(k, as) == [k |-> k, args |-> as, cspell |-> 0, grp |-> 0]
 \* key texts:  a=97 b=98 n=110 v=118 ; "al" "alt" "num" "val"
+K_a == <<97>>  K_b == <<98>>
 K_al == <<97, 108>>  K_alt == <<97, 108, 116>>  K_num == <<110, 117, 109>>  K_val == <<118, 97, 108>>
 Cfgs == <<
    \* 1: flags + required int, prefix-related long keys
@@ -52,15 +58,37 @@ Cfgs == <<
    \* 15: multi-value vector ended by --endvalues, positional string
    [C0(<<[A0(118, K_val, "vecint") EXCEPT !.multi = TRUE], A0(97, <<101, 110>>, "flag")>>, <<>>, TRUE) EXCEPT !.endvalues = TRUE],
    \* 16: multi-value string vector, a flag and a positional string: which argument gets a free value
-   C0(<<[A0(118, K_val, "vecstr") EXCEPT !.multi = TRUE], A0(97, K_al, "flag"), [A0(0, <<>>, "str") EXCEPT !.pos = TRUE, !.card = [t |-> "none", a |-> 0, b |-> 0]]>>, <<>>, TRUE)
+   C0(<<[A0(118, K_val, "vecstr") EXCEPT !.multi = TRUE], A0(97, K_al, "flag"), [A0(0, <<>>, "str") EXCEPT !.pos = TRUE, !.card = [t |-> "none", a |-> 0, b |-> 0]]>>, <<>>, TRUE),
+   \* 17: growing bit sets: vector<bool> of initial size 1 (bit 0 set), DynamicBitset with clear-before-assign
+   C0(<<[A0(118, K_val, "vecbool") EXCEPT !.init = <<0>>, !.isize = 1], [A0(110, K_num, "dynbits") EXCEPT !.clear = TRUE, !.init = <<2>>, !.isize = 4]>>, <<>>, TRUE),
+   \* 18: bit sets with unsetFlag: vector<bool> (multi-value), DynamicBitset
+   C0(<<[A0(118, K_val, "vecbool") EXCEPT !.unset = TRUE, !.init = <<1, 7>>, !.isize = 10, !.multi = TRUE],
+        [A0(110, K_num, "dynbits") EXCEPT !.unset = TRUE, !.init = <<0, 12>>, !.isize = 13]>>, <<>>, TRUE),
+   \* 19: key-value containers: plain map with initial content, map with clear-before-assign that refuses duplicate keys
+   C0(<<[A0(118, K_val, "mapsi") EXCEPT !.sep = 59, !.init = <<<<K_b, 5>>>>],
+        [A0(110, K_num, "mapsi") EXCEPT !.sep = 58, !.clear = TRUE, !.uniq = "error", !.init = <<<<K_a, 3>>>>]>>, <<>>, TRUE),
+   \* 20: value arguments: two checked ones and an unchecked one (any number of uses) on one variable, one on its own
+   \*     variable that stores the original value again
+   C0(<<[AV(97, K_al, 1, 1) EXCEPT !.init = 4], [AV(98, K_alt, 2, 1) EXCEPT !.init = 4],
+        [AV(110, K_num, 4, 1) EXCEPT !.init = 4, !.chkorig = FALSE, !.card = [t |-> "none", a |-> 0, b |-> 0]],
+        [AV(118, K_val, 0, 4) EXCEPT !.card = [t |-> "max", a |-> 2, b |-> 0]]>>, <<>>, TRUE),
+   \* 21: pair arguments: int, vector<int> (multi-value) and flag as first variable
+   C0(<<[A0(110, K_num, "int") EXCEPT !.pair = [on |-> TRUE, val |-> 9, init |-> 1]],
+        [A0(118, K_val, "vecint") EXCEPT !.multi = TRUE, !.pair = [on |-> TRUE, val |-> -2, init |-> 0]],
+        [A0(97, K_al, "flag") EXCEPT !.pair = [on |-> TRUE, val |-> 5, init |-> 5]]>>, <<>>, TRUE)
 >>
 Sel == IF CfgSel = {} THEN 1..Len(Cfgs) ELSE CfgSel
 Cfg == Cfgs[ci]
 
 IntPool == {<<48>>, <<55>>, <<45, 51>>, <<120>>, <<49, 50>>}          \* "0" "7" "-3" "x" "12"
 StrPool == {<<120>>, <<97, 98>>, <<45, 121>>, <<88, 121, 122>>}        \* "x" "ab" "-y" "Xyz"
+\* positions are unsigned: negative numbers are outside the documented domain (ArgEval leaves them open) and not generated
+BitPool == {<<48>>, <<49>>, <<49, 50>>, <<120>>, <<55>>}     \* "0" "1" "12" "x" "7"
+MapPool == {<<97, 44, 49>>, <<98, 44, 50>>, <<97, 44, 55>>, <<97, 44, 120>>, <<97>>, <<44, 49>>, <<99, 44>>}   \* "a,1" "b,2" "a,7" "a,x" "a" ",1" "c,"
 ValChoices(arg) ==
-   IF arg.kind = "flag" THEN {<<>>}
+   IF arg.kind \in {"flag", "valint"} THEN {<<>>}
+   ELSE IF arg.kind \in GrowBitKinds THEN {<<v>> : v \in BitPool} \cup {<<v, w>> : v, w \in {<<49>>, <<55>>}}
+   ELSE IF arg.kind = "mapsi" THEN {<<v>> : v \in MapPool} \cup {<<v, w>> : v \in {<<97, 44, 49>>, <<98, 44, 50>>}, w \in {<<97, 44, 55>>, <<98, 44, 50>>}}
    ELSE IF arg.kind = "level" THEN {<<>>, <<<<50>>>>, <<<<55>>>>, <<<<120>>>>}
    ELSE IF arg.kind = "dbl" THEN {<<v>> : v \in {<<50, 46, 53>>, <<45, 48, 46, 50, 53>>, <<51>>, <<120>>, <<49, 46, 55, 53>>, <<49, 46, 51>>}}   \* "2.5" "-0.25" "3" "x" "1.75" "1.3"
    ELSE IF arg.kind = "tup" THEN {<<<<55>>, <<97, 98>>, <<45, 51>>>>, <<<<48>>, <<120>>, <<120>>>>, <<<<55>>, <<120>>>>, <<<<48>>>>, <<<<55>>, <<120>>, <<48>>, <<55>>>>}
@@ -88,7 +116,7 @@ CursorInv == CursorOK(words, st)
 \* C02: an invalid line is rejected in every spelling (no silent acceptance)
 AgreesInv == Final =>
    \/ Open(Cfg, line) \/ st.out = "undef"
-   \/ Valid(Cfg, line) /\ st.out = "ok" /\ \A a \in 1..NArgs(Cfg) : st.dest[a] = Intended(Cfg, line)[a]
+   \/ Valid(Cfg, line) /\ st.out = "ok" /\ \A a \in 1..NArgs(Cfg) : st.dest[a] = Intended(Cfg, line)[a] /\ st.aux[a] = IntendedAux(Cfg, line)[a]
    \/ ~Valid(Cfg, line) /\ st.out = "err"
 \* the step function and the recursive closure used for trace validation are the same function
 ClosureInv == Final => Outcome(Eval(Cfg, <<>>, words)) = Outcome(st)
